@@ -1074,7 +1074,7 @@ class Inliner:
                 touched = False
                 while i < len(body["blocks"]):
                     t = body["blocks"][i]["term"]
-                    if t["k"] == "call" and t.get("fn") and (t["fn"].get("def") or "").endswith("FnOnce::call_once") and body.get("inlined_from"):
+                    if t["k"] == "call" and t.get("fn") and (t["fn"].get("def") or "").endswith("FnOnce::call_once"):
                         nb = self._inline_closure_call(body, i)
                         if nb is not None:
                             more += nb
